@@ -11,7 +11,10 @@ EdgesMinusOne(s) == IF Required(s) = {} THEN {} ELSE Required(s) \ {CHOOSE p \in
 \* emission of every signature in scope (accepted or not) with the expected analysis result
 EmitInit == sig \in Sig /\ phase = "sig" /\ rooted = {} /\ retLive = FALSE /\ borrows = {} /\ freed = {}
 EmitSpec == EmitInit /\ [][FALSE]_vars
-Emit == PrintT(<<"CASE", ToJson([sig |-> sig, accepted |-> Accepted(sig),
-                    missing |-> MustRestate(sig) \ TC(Named(Spelled(sig))),
-                    edges |-> [r \in OutLts(sig) |-> EdgeList(sig, r)]])>>)
+Emit == LET d == Desugar(sig) IN
+        PrintT(<<"CASE", ToJson([sig |-> sig, accepted |-> Accepted(sig),
+                    missing |-> IF ElidedRet(sig.ret.kind)
+                                  THEN (MustRestate(d) \cup Named(RetRefImplied(d))) \ TC(Named(d.decl \cup (RefImplied(d) \ RetRefImplied(d))))
+                                  ELSE MustRestate(d) \ TC(Named(Spelled(d))),
+                    edges |-> [r \in OutLts(d) |-> EdgeList(d, r)]])>>)
 =============================================================================
